@@ -131,6 +131,7 @@ func cmdEngine(args []string) error {
 	out := fs.String("out", "", "output directory")
 	workers := fs.Int("workers", 8, "parallel workers")
 	perFile := fs.Int("per-file", 8, "histories per cases file")
+	monitor := fs.String("monitor", "", "extra executable monitor to evaluate on the observed steps (prune)")
 	fs.Parse(args)
 	if *out == "" {
 		return fmt.Errorf("-out required")
@@ -203,10 +204,13 @@ func cmdEngine(args []string) error {
 		if err != nil {
 			return err
 		}
-		fmt.Fprintln(fh, "From MB Require Import Base.\nFrom MB.Bus Require Import State Ops Step Check.\nOpen Scope list_scope.\n")
+		fmt.Fprintln(fh, "From MB Require Import Base.\nFrom MB.Bus Require Import State Ops Step Check View.\nOpen Scope list_scope.\n")
 		for i := f * (*perFile); i < (f+1)*(*perFile) && i < len(logs); i++ {
 			fmt.Fprintln(fh, EmitHistory(fmt.Sprintf("h%d", i), logs[i].Steps))
 			fmt.Fprintf(fh, "Definition r%d := Eval vm_compute in check_history h%d.\nPrint r%d.\n\n", i, i, i)
+			if *monitor == "prune" {
+				fmt.Fprintf(fh, "Definition v%d := Eval vm_compute in check_prune_steps h%d.\nPrint v%d.\n\n", i, i, i)
+			}
 		}
 		fh.Close()
 		st.Files = append(st.Files, name)
